@@ -53,8 +53,16 @@ def gen_case(rng, i):
         refmode = 'explicit'             # files outside the working directory are only checked when named
     if script == 'OMIT':
         refmode = 'none'
-    return {'spec': spec, 'flags': flags, 'iterations': it, 'script': script, 'refmode': refmode, 'decoys': rng.random() < 0.7,
+    case = {'spec': spec, 'flags': flags, 'iterations': it, 'script': script, 'refmode': refmode, 'decoys': rng.random() < 0.7,
             'previous_generation': rng.random() < 0.2, 'flags_first': rng.random() < 0.5, 'old_decoys': rng.random() < 0.6}
+    if rng.random() < 0.2:
+        # the same request put through gentest's question-and-answer wizard (`tdda gentest` with no parameters),
+        # which alone offers to switch off the tracking of files written under gentest's $TMPDIR
+        case['wizard'] = {'tmpdir_tracking': rng.random() < 0.5, 'spell_yes': rng.choice(['y', 'yes', '', 'Y']),
+                          'spell_no': rng.choice(['n', 'no', 'N'])}
+        if case['refmode'] == 'glob':
+            case['refmode'] = 'explicit'       # the wizard takes file and directory names, not shell patterns
+    return case
 
 
 def bare_run(workdir, env, mut=None, names=None):
@@ -136,6 +144,18 @@ def generate(ctx, case, tag='g'):
     pos = ['sh cmd.sh'] + ([sarg] + refs if sarg else [])
     argv = ['gentest'] + (case['flags'] + pos if case['flags_first'] else pos + case['flags'])
     g.argv = argv
+    g.stdin = None
+    wz = case.get('wizard')
+    if wz:
+        yes, no = wz['spell_yes'], wz['spell_no']
+        fl = case['flags']
+        answers = ['sh cmd.sh', sarg or '', yes if case['refmode'] == 'dot' else no, yes if wz['tmpdir_tracking'] else no]
+        answers += [r for r in refs if r != '.'] + ['']
+        answers += [no if '--no-stdout' in fl else yes, no if '--no-stderr' in fl else yes, no if '--non-zero-exit' in fl else yes,
+                    yes, str(case['iterations']) if '--iterations' in fl or case['iterations'] != 2 else '']
+        g.argv = argv = ['gentest']
+        g.stdin = ('\n'.join(answers) + '\n').encode('utf-8')
+        rec.event('gentest:wizard_runs')
     if sarg is None:
         g.script = os.path.join(workdir, 'test_' + ''.join(c if c.isalnum() else '_' for c in 'sh cmd.sh') + '.py')
     else:
@@ -147,9 +167,9 @@ def generate(ctx, case, tag='g'):
     g.refname = os.path.basename(g.script)[4:-3].lstrip('_') if os.path.basename(g.script)[4:5] == '_' else os.path.basename(g.script)[4:-3]
     g.refdir = os.path.join(workdir, 'ref', g.refname)
     if case['previous_generation']:
-        forkserver.fork_run(console_main, ['tdda'] + argv, cwd=workdir, env=env, scratch=ctx.scratch)
+        forkserver.fork_run(console_main, ['tdda'] + argv, cwd=workdir, env=env, scratch=ctx.scratch, stdin_bytes=g.stdin)
     g.before = fsmon.snapshot(workdir)
-    g.res = forkserver.fork_run(console_main, ['tdda'] + argv, cwd=workdir, env=env, scratch=ctx.scratch, timeout=120)
+    g.res = forkserver.fork_run(console_main, ['tdda'] + argv, cwd=workdir, env=env, scratch=ctx.scratch, timeout=120, stdin_bytes=g.stdin)
     g.after = fsmon.snapshot(workdir)
     rec.event('gentest:runs')
     return g
